@@ -16,11 +16,12 @@ import (
 type Placement struct {
 	Out       string `json:"out"`
 	Pkg       string `json:"pkg"`
-	Loaded    bool   `json:"loaded"`            // the file is part of the package moq loads next time
-	Writable  bool   `json:"writable"`          // a run can succeed in writing it
-	NeedsDirs bool   `json:"needs_dirs"`        // parents are missing initially
-	Abs       bool   `json:"abs,omitempty"`     // -out is given as an absolute path
-	Symlink   string `json:"symlink,omitempty"` // -out is a symlink to this existing file (relative to the link's directory)
+	Loaded    bool   `json:"loaded"`             // the file is part of the package moq loads next time
+	Writable  bool   `json:"writable"`           // a run can succeed in writing it
+	NeedsDirs bool   `json:"needs_dirs"`         // parents are missing initially
+	Abs       bool   `json:"abs,omitempty"`      // -out is given as an absolute path
+	Symlink   string `json:"symlink,omitempty"`  // -out is a symlink to this file (relative to the link's directory)
+	Dangling  bool   `json:"dangling,omitempty"` // ... which does not exist yet
 }
 
 // Placements the generator chooses from.
@@ -41,6 +42,8 @@ var Placements = []Placement{
 	{Out: "mock_ext_test.go", Pkg: "src_test", Writable: true},
 	// -out is a symbolic link to an existing file elsewhere
 	{Out: "../mocks/link_gen.go", Pkg: "mocks", Writable: true, Symlink: "../linktarget/real_gen.go"},
+	// ... and a dangling one whose relative target means different places from the link's directory and from moq's working directory
+	{Out: "../mocks/dangling_gen.go", Pkg: "mocks", Writable: true, Symlink: "gen/new_gen.go", Dangling: true},
 }
 
 // Step kinds.
@@ -117,7 +120,7 @@ func (sc *Scenario) String() string {
 }
 
 // Damage kinds.
-var damages = []string{"truncate", "garbage", "empty", "otherpkg", "selfdecl", "aliases"}
+var damages = []string{"truncate", "garbage", "empty", "otherpkg", "selfdecl", "aliases", "readonly", "readonly"}
 
 // Profile tunes scenario generation per property.
 type Profile struct {
@@ -150,7 +153,7 @@ func GenScenario(tp *tape.Tape, seed uint64, pf Profile) *Scenario {
 	if tp.Chance(150, 1000) {
 		sc.Place = Placements[4+tp.Int(2)]
 	} else {
-		w := []int{0, 0, 0, 1, 2, 3, 6, 7, 8, 9, 10, 11, 12, 12, 12}
+		w := []int{0, 0, 0, 1, 2, 3, 6, 7, 8, 9, 10, 11, 12, 12, 12, 13}
 		sc.Place = Placements[w[tp.Int(len(w))]]
 	}
 	sc.IncompleteMod = tp.Chance(70, 1000)
